@@ -85,7 +85,7 @@ func c04GenAct(r *Rand, cfg *c04Cfg, big bool) c04Act {
 
 func c04GenCfg(r *Rand) c04Cfg {
 	cfg := c04Cfg{Br: []c04Branch{}, Children: r.Intn(4), Named: r.Chance(1, 4), Caller: r.Chance(1, 4),
-		Gomax: Pick(r, []int{1, 2, 4, 8, 16}), Gosched: r.Intn(4), Sampler: r.Chance(1, 8), SafeRec: r.Chance(1, 3)}
+		Gomax: Pick(r, []int{1, 2, 4, 8, 16}), Gosched: r.Intn(4), Sampler: r.Chance(1, 8), SafeRec: r.Chance(1, 3), SyncErr: r.Chance(1, 4)}
 	nb := 1 + r.Intn(3)
 	for i := 0; i < nb; i++ {
 		cfg.Br = append(cfg.Br, c04Branch{Sink: Pick(r, c04Sinks), Size: Pick(r, c04BufSizes), Enc: Pick(r, c04Encs),
